@@ -163,6 +163,52 @@ Theorem C17_crash_in_fallback_copy_leaves_nothing :
 Proof. exact crash_in_fallback_copy_leaves_nothing. Qed.
 Print Assumptions C17_crash_in_fallback_copy_leaves_nothing.
 
+(* Ids of EVERY length are in the case space (Toolchain::archive_id_is_valid puts no upper bound
+   on an id).  An id that is not the digest of any content - a stored id with digits appended or
+   dropped, an id longer than a file name can be - is never reported present and never served,
+   whatever is stored under the ids that resemble it ... *)
+Theorem C17_only_digests_are_served :
+  forall (digest : bytes -> id) (s0 : tst) (ops : list top) (i : id),
+  tinv digest s0 ->
+  (forall c, digest c <> i) ->
+  let s := trun digest s0 ops in
+  tc_contains s i = false /\
+  (forall s' r t ret, tc_get digest s i = (s', r, t, ret) -> r <> TOk /\ ret = []).
+Proof. exact only_digests_are_served. Qed.
+Print Assumptions C17_only_digests_are_served.
+
+(* ... and removing an id touches that id only: every other id (of any length, valid or not) is
+   reported and served exactly as before. *)
+Theorem C17_remove_is_exact :
+  forall (digest : bytes -> id) (s0 : tst) (ops : list top) (i : id),
+  tinv digest s0 ->
+  let s := trun digest s0 ops in
+  forall j, j <> i ->
+  tc_contains (fst (tc_remove s i)) j = tc_contains s j /\
+  content_of (fst (tc_remove s i)) j = content_of s j.
+Proof. exact remove_is_exact. Qed.
+Print Assumptions C17_remove_is_exact.
+
+(* The build server in front of the cache (sccache-dist `Server`: handle_assign_job /
+   handle_submit_toolchain / handle_run_job with the builder that throws an archive it cannot
+   unpack out of the cache again; an upload stalled in the middle of its body holds the cache, and
+   assignments arriving meanwhile are answered after it).  Whenever the server tells the
+   scheduler that it does NOT need the toolchain of a job - at once, or to an assignment that had
+   to wait for an upload - its cache holds, at that moment, an archive under that id whose
+   digest is the id; for every history of assignments, uploads, stalled uploads and job runs. *)
+Theorem C17_server_ready_means_present :
+  forall (digest : bytes -> id) (s0 : sst) (ops : list sop) (o : sop),
+  tinv digest (sv s0) ->
+  let s := srun digest s0 ops in
+  let s' := fst (fst (sstep digest s o)) in
+  (snd (fst (sstep digest s o)) = SReady ->
+     exists i c, o = SAssign i /\ content_of (sv s') i = Some c /\ digest c = i) /\
+  (forall n w, nth_error (swait s) n = Some w ->
+     nth_error (snd (sstep digest s o)) n = Some SReady ->
+     exists c, content_of (sv s') (snd w) = Some c /\ digest c = snd w).
+Proof. exact server_ready_means_present. Qed.
+Print Assumptions C17_server_ready_means_present.
+
 (* ---------- non-vacuity ---------- *)
 
 (* the hypothesis [tinv] holds for a freshly created cache directory *)
@@ -217,3 +263,20 @@ Example ex_failed_rename :
   snd (tstep toy_digest s (TInsertFileCopy [4; 5] false)) = TORes TIoErr None [] /\
   snd (tstep toy_digest s (TInsertFileCopy [4; 5] true)) = TORes TOk (Some (key_path (toy_digest [4; 5]))) [toy_digest [4; 5]].
 Proof. vm_compute. repeat split. Qed.
+
+Example ex_near_ids :
+  let d := toy_digest [1; 2; 3] in
+  let s := trun toy_digest (tc_empty 100) [TInsertWith d [1; 2; 3] false] in
+  tc_contains s d = true /\ tc_contains s (d ++ [48]) = false /\ valid_id (d ++ [48]) = true /\
+  tc_contains (fst (tc_remove s (d ++ [48; 48]))) d = true /\
+  snd (tstep toy_digest s (TGet (d ++ [48]))) = TORes TNotInCache None [].
+Proof. vm_compute. repeat split. Qed.
+
+Example ex_server :
+  let d := toy_digest [1; 2; 3] in
+  let e := toy_digest [4] in
+  let ops := [SAssign d; SSubmit 1 [1; 2; 3]; SAssign d; SRun 2; SAssign e; SStall 3 [4]; SAssign d; SRelease] in
+  map (fun x => fst x) (strace toy_digest (s_empty 100) ops)
+    = [(SNeed, []); (SSuccess, []); (SReady, []); (SFailed, []); (SNeed, []); (SStalled, []); (SBlocked, []);
+       (SSuccess, [SNeed])].
+Proof. vm_compute. reflexivity. Qed.
